@@ -493,6 +493,7 @@ fn location_class(format: Format, file: &[u8], off: usize) -> String {
         for c in walk_chunks(file) {
             if off >= c.start && off < c.end {
                 let name = String::from_utf8_lossy(&c.name).trim_end_matches('\0').to_string();
+                let name = if ["META", "SSTR", "INST", "PROP", "PRNT", "END"].contains(&name.as_str()) { name } else { "other".to_string() };
                 if off < c.payload {
                     return format!("{}:chunk-header", name);
                 }
@@ -561,43 +562,66 @@ fn location_class(format: Format, file: &[u8], off: usize) -> String {
     }
 }
 
-/// Offsets of 4-byte little-endian fields that look like lengths or counts.
-fn length_fields(format: Format, file: &[u8]) -> Vec<usize> {
-    let mut out = Vec::new();
+/// Offsets of 4-byte little-endian fields that look like lengths or counts,
+/// grouped by the kind of structure they belong to, so that rare structures
+/// (SSTR, META, header) are targeted as often as common ones.
+fn length_fields(format: Format, file: &[u8]) -> Vec<(String, Vec<usize>)> {
+    let mut groups: std::collections::BTreeMap<String, Vec<usize>> = std::collections::BTreeMap::new();
     if format.is_bin() {
         if file.len() >= 32 {
-            out.push(16); // num_types
-            out.push(20); // num_instances
+            groups.entry("header".into()).or_default().extend([16usize, 20]);
         }
         for c in walk_chunks(file) {
-            out.push(c.start + 4);
-            out.push(c.start + 8);
-            out.push(c.start + 12);
+            let name = String::from_utf8_lossy(&c.name).trim_end_matches('\0').to_string();
+            let name = if ["META", "SSTR", "INST", "PROP", "PRNT", "END"].contains(&name.as_str()) { name } else { "other".to_string() };
+            groups.entry(format!("{}:chunk-header", name)).or_default().extend([c.start + 4, c.start + 8, c.start + 12]);
             if !c.compressed {
+                let g = groups.entry(format!("{}:payload-head", name)).or_default();
                 let mut k = 0;
                 while k < 3 && c.payload + 4 * (k + 1) <= c.end {
-                    out.push(c.payload + 4 * k);
+                    g.push(c.payload + 4 * k);
                     k += 1;
                 }
-                // string length right after (type_id, name) in INST / PROP
+                if &c.name == b"PRNT" && c.payload + 5 <= c.end {
+                    g.push(c.payload + 1);
+                }
+                // fields right after (type_id, name) in INST / PROP, and a scan
+                // of the bytes that follow (per-value length prefixes, counts)
                 if (&c.name == b"INST" || &c.name == b"PROP") && c.payload + 8 <= c.end {
                     let nl = u32::from_le_bytes(file[c.payload + 4..c.payload + 8].try_into().unwrap()) as usize;
-                    let after = c.payload + 8 + nl;
+                    let after = c.payload.saturating_add(8).saturating_add(nl);
                     if after + 5 <= c.end {
-                        out.push(after);
-                        out.push(after + 1);
+                        let g = groups.entry(format!("{}:after-name", name)).or_default();
+                        g.push(after);
+                        g.push(after + 1);
+                        let g = groups.entry(format!("{}:value-scan", name)).or_default();
+                        let mut o = after + 1;
+                        while o + 4 <= c.end && o < after + 64 {
+                            g.push(o);
+                            o += 1;
+                        }
+                    }
+                }
+                if &c.name == b"SSTR" {
+                    let g = groups.entry("SSTR:entries".into()).or_default();
+                    let mut o = c.payload + 8;
+                    while o + 20 <= c.end && g.len() < 8 {
+                        g.push(o + 16);
+                        let l = u32::from_le_bytes(file[o + 16..o + 20].try_into().unwrap()) as usize;
+                        o = o.saturating_add(20).saturating_add(l);
                     }
                 }
             }
         }
     } else if format == Format::Attr {
+        let g = groups.entry("attr".into()).or_default();
         let mut k = 0;
-        while 4 * (k + 1) <= file.len() && k < 8 {
-            out.push(4 * k);
+        while k + 4 <= file.len() && k < 48 {
+            g.push(k);
             k += 1;
         }
     }
-    out
+    groups.into_iter().filter(|(_, v)| !v.is_empty()).collect()
 }
 
 const DICT: &[&[u8]] = &[
@@ -655,7 +679,27 @@ impl IoSim {
             allow_uid: true,
             shared_pool,
         };
-        spec::gen_tree(r, &self.cat, &p)
+        let mut tree = spec::gen_tree(r, &self.cat, &p);
+        // Make the rarer structures (SSTR chunk, sequences, Content arrays)
+        // common enough to be in flight when a fault lands.
+        if r.chance(1, 3) {
+            let pool: Vec<Vec<u8>> = (0..r.range(1, 3)).map(|_| spec::bytesv(r)).collect();
+            let mut rr = r.fork("extras");
+            tree.for_each_mut(&mut |node| {
+                if rr.chance(1, 2) {
+                    let (name, v) = match rr.below(5) {
+                        0 | 1 => ("VerifShared", ValSpec::Shared(rr.pick(&pool).clone())),
+                        2 => ("VerifNumSeq", ValSpec::G { ty: "NumberSequence".into(), s: rr.next_u64() >> 20 }),
+                        3 => ("VerifColSeq", ValSpec::G { ty: "ColorSequence".into(), s: rr.next_u64() >> 20 }),
+                        _ => ("VerifContent", ValSpec::G { ty: "Content".into(), s: rr.next_u64() >> 20 }),
+                    };
+                    if !node.props.iter().any(|(k, _)| k == name) {
+                        node.props.push((name.to_string(), v));
+                    }
+                }
+            });
+        }
+        tree
     }
 
     fn gen_attr_workload(&self, r: &mut Rng) -> Vec<(String, ValSpec)> {
@@ -872,11 +916,13 @@ impl IoSim {
                 ctx.count("fault_fired:insert");
             }
             Edit::LenEdit { which, how } => {
-                let fields = length_fields(format, file);
-                if fields.is_empty() {
+                let groups = length_fields(format, file);
+                if groups.is_empty() {
                     return;
                 }
-                let off = fields[*which as usize % fields.len()];
+                let (gname, fields) = &groups[*which as usize % groups.len()];
+                let off = fields[(*which as usize / 7919) % fields.len()];
+                ctx.count(&format!("len-edit-target:{}", gname));
                 if off + 4 > file.len() {
                     return;
                 }
@@ -1031,7 +1077,9 @@ impl IoSim {
                 format!("{}: decoder kept calling read() without progress ({} calls on {} bytes)", what, fired.calls, file.len()),
             );
         }
-        if maxreq > ALLOC_REQ_CEILING || peak > ALLOC_PEAK_CEILING {
+        // "Unrelated to the input size": an absolute floor plus a generous
+        // multiple of the input (LZ4 may legitimately expand 255x).
+        if maxreq > ALLOC_REQ_CEILING + 256 * file.len() || peak > ALLOC_PEAK_CEILING + 512 * file.len() {
             ctx.violate(
                 format!("alloc|{}|memory-unrelated-to-input", format.tag()),
                 format!(
@@ -1411,12 +1459,12 @@ impl Engine for IoSim {
             2 => Some(IoTrace {
                 format: Format::BinNone,
                 workload: Workload::Dom { tree: NodeSpec { class: "Folder".into(), name: "a".into(), props: vec![], children: vec![] } },
-                scenario: Scenario::Damage { edits: vec![Edit::LenEdit { which: 1, how: 8 }], plan: benign.clone() },
+                scenario: Scenario::Damage { edits: vec![Edit::LenEdit { which: 7919 * 1 + 4, how: 8 }], plan: benign.clone() },
             }),
             3 => Some(IoTrace {
                 format: Format::BinNone,
                 workload: Workload::Dom { tree: NodeSpec { class: "Folder".into(), name: "a".into(), props: vec![], children: vec![] } },
-                scenario: Scenario::Damage { edits: vec![Edit::LenEdit { which: 3, how: 8 }], plan: benign.clone() },
+                scenario: Scenario::Damage { edits: vec![Edit::LenEdit { which: 7919 * 1 + 2, how: 8 }], plan: benign.clone() },
             }),
             4 => Some(IoTrace {
                 format: Format::Xml,
